@@ -370,6 +370,11 @@ impl<'a> Socket<'a> {
                     net_debug!("DHCP ignoring OFFER because your_ip is not unicast");
                     return;
                 }
+                if !src_ip.x_is_unicast() {
+                    // The source address becomes the destination of the unicast renewals.
+                    net_debug!("DHCP ignoring OFFER because its source address is not unicast");
+                    return;
+                }
 
                 self.state = ClientState::Requesting(RequestState {
                     retry_at: cx.now(),
